@@ -12,14 +12,13 @@ CLAIMED = {
     'C01': ('Lean 4 proof: _select_transitions = declarative Fires relation (all charts, configurations, guard valuations) + differential correspondence',
             'C01.fires_iff / exposure / eventless_preempt / no_event_only_eventless hold for every tree-shaped chart, every set of '
             'active states, every pending event and every guard valuation. ' + TIE, '§6 C01'),
-    'C02': ('Lean 4 proof: legality is an inductive invariant of execute_once (semi-legal configurations preserved by every micro step, memory invariant, semi-legal + stable ⇒ legal) for well-formed charts decided by wfB — partial for multi-transition macro steps; legalB/wfB compared in the correspondence',
-            'legal_preserved_partial: for every WFChart (W1–W8, decided by wfB, proved sound, evaluated on every generated chart and compared with an '
-            'independent Python implementation) and every call that returns and plans at most one step — initialisation, event without transition, or ONE '
-            'transition whatever its source/target (nested in orthogonal regions, history, ancestors, self-loops, root) — the invariant "configuration empty or '
-            'Legal, history memory re-enterable" is preserved; legal_initially; stable_after_step; idle_keeps_configuration; final_stays_empty; legalB_sound. '
-            'PARTIAL: macro steps firing several transitions at once (one per orthogonal region) are not covered by the theorem (their later steps are computed '
-            'from the configuration before the first one; the disjoint-subtree frame argument is not formalised); the tie evaluates legalB on model and '
-            'implementation after every step of every generated run, including those (this is how defect D1 was found). ' + TIE, '§6 C02'),
+    'C02': ('Lean 4 proof: legality is an inductive invariant of execute_once (semi-legal configurations preserved by every micro step, history-memory invariant, separation of simultaneously fired transitions, semi-legal + stable ⇒ legal) for well-formed charts decided by wfB; legalB/wfB compared in the correspondence',
+            'legal_always / legal_preserved: for every WFChart (W1–W8, decided by wfB, proved sound, evaluated on every generated chart and compared with an '
+            'independent Python implementation), every evaluator and listener and every call that returns — initialisation, event without transition, one '
+            'transition whatever its source/target (nested in orthogonal regions, history, ancestors, self-loops, root) or several transitions at once — the '
+            'invariant "configuration empty or Legal, history memory re-enterable" is preserved, hence holds in every reachable state; legal_initially; '
+            'stable_after_step; idle_keeps_configuration; final_stays_empty; legalB_sound. The tie evaluates legalB on model and implementation after every step '
+            'of every generated run (this is how defect D1 was found). ' + TIE, '§6 C02'),
     'C03': ('Lean 4 proof: executeOnce_ok refinement (exact effect log = replay of the returned trace, run-to-completion) + correspondence',
             'For every chart, evaluator and history: the code executed during a call that returns is exactly the replay of the returned micro steps '
             '(exit code innermost first, action, entry code outermost first, then stabilisation) and configuration/memory are the trace applied to '
